@@ -1,7 +1,9 @@
 SPECIFICATION Spec
 CONSTANTS
-  MaxDepth = 4
-  MaxTens = 6
+  MaxDepth = 3
+  MaxTens = 4
+  Judge = TRUE
+  Record = FALSE
   Dev = "none"
 VIEW view
 INVARIANT PlainPureInv
